@@ -80,7 +80,8 @@ def union_ties(a, b):
 def _is_tied(ties, g):
     # direction-insensitive: sheXer's choice (OR) serializer omits the '^' of inverse constraints, so a
     # tie found in the inverse group of the profile shows up in what reads as the direct group
-    return ties == ALL_TIED or (g[0], True, g[2]) in ties or (g[0], False, g[2]) in ties
+    lab = g[0].split("~")[0]      # same-label shapes are told apart by a '~<class>' suffix the profile does not carry
+    return ties == ALL_TIED or (lab, True, g[2]) in ties or (lab, False, g[2]) in ties
 
 
 # ---------------------------------------------------------------------------
